@@ -157,6 +157,22 @@ sim::Json generate(const std::string& tier, uint64_t seed, uint64_t index) {
       sc.ref("signals").push(sig("*", (int)rng.below((uint64_t)c.total), signo));
     }
   }
+  if (rng.chance(0.15)) {
+    // a second driver party with a history: the minimal BasicBackend driver, its application object run 1..3 times;
+    // signals at its own points (occurrence counts are not known in advance: a signal whose point never comes simply stays pending)
+    sc.set("driver", "mini"); sc.set("mini_runs", (long)rng.range(1, 3));
+    static const char* pts[] = {"stub.solve.iter", "stub.solve.iter", "stub.solve.end", "stub.SetInterrupter", "sigh.sethandler.begin", "sigh.sethandler.after_data_store",
+                                "sigh.sethandler.after_handler_clear", "sigh.sethandler.after_handler_store", "io.stdout.write", "sigh.handle.enter", "sigh.handle.after_inc",
+                                "sigh.handle.after_write", "sigh.handle.after_callback", "sigh.handle.exit", "*"};
+    sim::Json sg = sim::Json::array();
+    int ns = 1 + (int)rng.below(3);
+    for (int q = 0; q < ns; ++q) {
+      std::string pt = pts[rng.below(sizeof pts / sizeof *pts)];
+      if (q == 0 && rng.chance(0.6)) sg.push(sig("stub.solve.iter", (int)rng.below((uint64_t)(sc["script"]["solve_iters"].as_int(1) * sc["mini_runs"].as_int(1))), rng.chance(0.5) ? 2 : 15));   // certain to come
+      else sg.push(sig(pt, (int)rng.below(pt == "*" ? 70 : pt.compare(0, 11, "sigh.handle") == 0 ? 2 : 7), rng.chance(0.5) ? 2 : 15));
+    }
+    sc.set("signals", sg);
+  }
   if (rng.chance(0.25)) {                            // fault on the handler's own write(1, ...)
     sim::FaultOp f; f.role = "stdout"; f.op = "write"; f.k = (int)rng.below(3);
     const char* kinds[] = {"SHORT", "EINTR", "EAGAIN"};
@@ -186,6 +202,7 @@ void judge(const sim::Json& sc, const RunRecord& rec, sim::RunResult& r) {
   std::vector<int> stack;
   int pending_signo = 0; std::string pending_at;
   int counted = 0;
+  int live = 0;                // handler objects in existence
   bool exited = false;
   std::string viol, key, detail;
   auto flag = [&](const std::string& v, const std::string& k, const std::string& d) {
@@ -210,11 +227,16 @@ void judge(const sim::Json& sc, const RunRecord& rec, sim::RunResult& r) {
 
   for (size_t ei = 0; ei < rec.history.size(); ++ei) {
     const std::string& e = rec.history[ei];
-    if (starts(e, "Y sigh.ctor.after_signal_int")) { inst_int = true; alive = true; }
+    if (starts(e, "Y sigh.ctor.after_signal_int")) {
+      // handler objects are counted: interrupt handling stays installed as long as one of them exists; a handler object created
+      // after the last one is gone is a fresh installation (its constructor clears the stop request and there is no callback yet)
+      if (live == 0 && dtor_begun) { dtor_begun = dtor_done = ctor_done = false; current = -1; in_progress = -1; counted = 0; must_stop.clear(); }
+      ++live; inst_int = true; alive = true;
+    }
     else if (starts(e, "Y sigh.ctor.after_signal_term")) inst_term = true;
     else if (starts(e, "Y sigh.ctor.end")) ctor_done = true;
-    else if (starts(e, "Y sigh.dtor.begin")) { dtor_begun = true; alive = false; }
-    else if (starts(e, "Y sigh.dtor.end")) dtor_done = true;
+    else if (starts(e, "Y sigh.dtor.begin")) { if (live > 0) --live; if (live == 0) { dtor_begun = true; alive = false; } }
+    else if (starts(e, "Y sigh.dtor.end")) { if (live == 0) dtor_done = true; }
     else if (starts(e, "SIGNAL ")) {
       pending_signo = atoi(e.c_str() + 7);
       size_t p = e.find(" at ");
